@@ -421,14 +421,226 @@ func c01(r *engine.Report, p *engine.Program) {
 		relax := false
 		for _, b := range urt.Blocks {
 			for _, in := range b.Instrs {
-				if bo, isB := in.(*ssa.BinOp); isB && bo.Op == token.LSS {
-					if add, isAdd := bo.X.(*ssa.BinOp); isAdd && add.Op == token.ADD {
+				if bo, isB := in.(*ssa.BinOp); isB && (bo.Op == token.LSS || bo.Op == token.GTR) {
+					sum := bo.X
+					if bo.Op == token.GTR {
+						sum = bo.Y
+					}
+					if add, isAdd := sum.(*ssa.BinOp); isAdd && add.Op == token.ADD {
 						relax = true
 					}
 				}
 			}
 		}
-		r.Check("R5-direct-neighbour", "updateRoutingTable: relaxation on strict improvement (cost[node]+edge < cost[neighbour])", urt.Pos(), relax, "found", "the relaxation test changed shape")
+		r.Check("R5-direct-neighbour", "updateRoutingTable: relaxation on strict improvement (cost[node]+edge < cost[neighbour])", urt.Pos(), relax, "a strict comparison with the sum cost[node]+edge on the smaller side guards the update", "no strict comparison 'cost[node]+edge < cost[neighbour]' guards the relaxation (a non-strict test lets equal-cost paths flip the predecessor forever)")
+	}
+	ownAdvertRules(r, p)
+}
+
+// ownAdvertRules (C01 R6): what this node tells the others about itself is exactly its connection
+// table — every established neighbour with its cost — stamped with its own ID, epoch and the
+// incremented sequence; and a neighbour that stays silent longer than the idle limit is cancelled.
+func ownAdvertRules(r *engine.Report, p *engine.Program) {
+	mru := p.Func("(*netceptor.Netceptor).makeRoutingUpdate")
+	aging := p.Func("(*netceptor.Netceptor).monitorConnectionAging")
+	conns := p.Field("netceptor", "Netceptor", "connections")
+	if mru == nil || aging == nil || conns == nil {
+		r.Broken("makeRoutingUpdate / monitorConnectionAging not found")
+		return
+	}
+	// (a) Connections[k] = s.connections[k].Cost for every k of the range
+	{
+		var rng *ssa.Range
+		for _, a := range engine.FieldAccessesIn(mru, conns) {
+			if a.Kind == engine.AccRange {
+				rng, _ = a.Instr.(*ssa.Range)
+			}
+		}
+		var upd *ssa.MapUpdate
+		for _, b := range mru.Blocks {
+			for _, in := range b.Instrs {
+				if mu, ok := in.(*ssa.MapUpdate); ok {
+					if _, isMk := engine.Unwrap(mu.Map).(*ssa.MakeMap); isMk {
+						upd = mu
+					}
+				}
+			}
+		}
+		ok, why := rng != nil && upd != nil, "the range over s.connections or the store into the advertised map was not found"
+		if ok {
+			// key of the store is the range key
+			keyOK := false
+			if e, isE := engine.Unwrap(upd.Key).(*ssa.Extract); isE && e.Index == 1 {
+				if nx, isN := e.Tuple.(*ssa.Next); isN && nx.Iter == ssa.Value(rng) {
+					keyOK = true
+				}
+			}
+			// value is field Cost of connections[key] (or of the range value)
+			valOK := false
+			if f, base := engine.FieldOfLoad(upd.Value); f != nil && f.Name() == "Cost" {
+				switch b := engine.Unwrap(base).(type) {
+				case *ssa.Lookup:
+					if fl, _ := engine.FieldOfLoad(b.X); fl == conns && engine.Unwrap(b.Index) == engine.Unwrap(upd.Key) {
+						valOK = true
+					}
+				case *ssa.Extract:
+					if nx, isN := b.Tuple.(*ssa.Next); isN && nx.Iter == ssa.Value(rng) && b.Index == 2 {
+						valOK = true
+					}
+				}
+			}
+			if !keyOK || !valOK {
+				ok = false
+				why = "the advertised map is not filled with key = neighbour ID and value = that neighbour's Cost"
+			}
+			// no filter: from the 'has next' edge the loop cannot come back to Next without the store
+			if ok {
+				var nxt *ssa.Next
+				for _, rr := range *rng.Referrers() {
+					if n, isN := rr.(*ssa.Next); isN {
+						nxt = n
+					}
+				}
+				has, _ := engine.CondEdges(mru, func(c ssa.Value) (bool, bool) {
+					e, isE := c.(*ssa.Extract)
+					return isE && e.Index == 0 && nxt != nil && e.Tuple == ssa.Value(nxt), true
+				})
+				if len(has) == 0 {
+					ok, why = false, "loop structure not recognised"
+				}
+				for _, e := range has {
+					if reachFromEdge(mru, e, nil, func(in ssa.Instruction) bool { return in == ssa.Instruction(upd) }, func(in ssa.Instruction) bool {
+						if in == ssa.Instruction(nxt) {
+							return true
+						}
+						_, isR := in.(*ssa.Return)
+						return isR
+					}) != nil {
+						ok, why = false, "an iteration of the range over s.connections can end without advertising that neighbour (a filter or early exit): the others compute routes from an incomplete adjacency"
+					}
+				}
+			}
+		}
+		r.Check("R6-own-advert", "makeRoutingUpdate: advertises every entry of connections with its cost", mru.Pos(), ok,
+			"Connections[k] = connections[k].Cost for every key of the range, no iteration skips the store", why)
+		// stamped fields
+		want := map[string]string{"NodeID": "nodeID", "UpdateEpoch": "epoch", "UpdateSequence": "sequence", "ForwardingNode": "nodeID"}
+		got := map[string]string{}
+		for name := range want {
+			uf := p.Field("netceptor", "routingUpdate", name)
+			for _, a := range engine.FieldAccessesIn(mru, uf) {
+				if st, isS := a.Instr.(*ssa.Store); isS && a.Kind == engine.AccStore {
+					if f, _ := engine.FieldOfLoad(st.Val); f != nil {
+						got[name] = f.Name()
+					}
+				}
+			}
+		}
+		okF := true
+		for k, v := range want {
+			if got[k] != v {
+				okF = false
+			}
+		}
+		// the map stored in Connections is the one filled above
+		if upd != nil {
+			cf := p.Field("netceptor", "routingUpdate", "Connections")
+			okC := false
+			for _, a := range engine.FieldAccessesIn(mru, cf) {
+				if st, isS := a.Instr.(*ssa.Store); isS && engine.Unwrap(st.Val) == engine.Unwrap(upd.Map) {
+					okC = true
+				}
+			}
+			okF = okF && okC
+		}
+		r.Check("R6-own-advert", "makeRoutingUpdate: update stamped with own ID, epoch, incremented sequence; carries the map just built", mru.Pos(), okF,
+			fmt.Sprintf("field wiring %v", got), fmt.Sprintf("field wiring is %v, expected %v with Connections = the map built from s.connections", got, want))
+	}
+	// (b) idle neighbours are cancelled
+	{
+		lrd := p.Field("netceptor", "connInfo", "lastReceivedData")
+		maxIdle := p.Field("netceptor", "Netceptor", "maxConnectionIdleTime")
+		cancelF := p.Field("netceptor", "connInfo", "CancelFunc")
+		var since *ssa.Call
+		for _, ci := range callsTo(aging, "time.Since") {
+			if f, _ := engine.FieldOfLoad(ci.Common().Args[0]); f == lrd {
+				since, _ = ci.(*ssa.Call)
+			}
+		}
+		ok, why := since != nil, "no time.Since(connInfo.lastReceivedData) found"
+		if ok {
+			var collect ssa.Instruction
+			for _, b := range aging.Blocks {
+				for _, in := range b.Instrs {
+					if mu, isMU := in.(*ssa.MapUpdate); isMU {
+						if f, _ := engine.FieldOfLoad(mu.Value); f == cancelF {
+							collect = in
+						}
+					}
+				}
+			}
+			// edge taken when since > maxIdle reaches the collection; the other edge does not
+			var over, under []engine.Edge
+			for _, i := range engine.Ifs(aging) {
+				bo, isB := i.Cond.(*ssa.BinOp)
+				if !isB {
+					continue
+				}
+				op := bo.Op
+				x, y := bo.X, bo.Y
+				if engine.Unwrap(y) == ssa.Value(since) {
+					x, y = y, x
+					op = flipOp(op)
+				}
+				if engine.Unwrap(x) != ssa.Value(since) {
+					continue
+				}
+				if f, _ := engine.FieldOfLoad(y); f != maxIdle {
+					continue
+				}
+				switch op {
+				case token.GTR, token.GEQ:
+					over = append(over, engine.Edge{From: i.Block(), Succ: 0})
+					under = append(under, engine.Edge{From: i.Block(), Succ: 1})
+				case token.LSS, token.LEQ:
+					over = append(over, engine.Edge{From: i.Block(), Succ: 1})
+					under = append(under, engine.Edge{From: i.Block(), Succ: 0})
+				}
+			}
+			if collect == nil || len(over) == 0 {
+				ok, why = false, "the comparison of the idle time with maxConnectionIdleTime, or the collection of the connection's CancelFunc, was not found"
+			} else {
+				// next iteration / loop exit reached from the 'over' edge without collecting?
+				isCollect := func(in ssa.Instruction) bool { return in == collect }
+				for _, e := range over {
+					if reachFromEdge(aging, e, nil, isCollect, func(in ssa.Instruction) bool {
+						_, isNext := in.(*ssa.Next)
+						return isNext
+					}) != nil {
+						ok, why = false, "a connection idle for longer than the limit is not always collected for cancellation"
+					}
+				}
+				// every collected func is called: a range over the collected map whose element is called
+				called := false
+				for _, ci := range engine.CallsIn(aging) {
+					if lk, isL := engine.Unwrap(ci.Common().Value).(*ssa.Lookup); isL && engine.Unwrap(lk.X) == engine.Unwrap(collect.(*ssa.MapUpdate).Map) {
+						called = true
+					}
+					if e, isE := engine.Unwrap(ci.Common().Value).(*ssa.Extract); isE && e.Index == 2 {
+						if nx, isN := e.Tuple.(*ssa.Next); isN {
+							if rg, isR := nx.Iter.(*ssa.Range); isR && engine.Unwrap(rg.X) == engine.Unwrap(collect.(*ssa.MapUpdate).Map) {
+								called = true
+							}
+						}
+					}
+				}
+				if ok && !called {
+					ok, why = false, "the collected cancel functions are not called"
+				}
+			}
+		}
+		r.Check("R6-own-advert", "monitorConnectionAging: a neighbour silent for longer than maxConnectionIdleTime is cancelled", aging.Pos(), ok,
+			"on the edge time.Since(lastReceivedData) > maxConnectionIdleTime the connection's own CancelFunc is collected, and every collected function is called", why)
 	}
 }
 
